@@ -7,8 +7,8 @@
    on a lattice vocabulary, so that TLC decides point membership.
 
    Points.  A point is a homogeneous integer 4-tuple <<X, Y, Z, D>>, D > 0, standing
-   for (X/D, Y/D, Z/D).  Probe points are lattice points (D = 1); D grows (by 5) only
-   under the inverse of a Pythagorean (3-4-5) rotation and is reduced when possible.
+   for (X/D, Y/D, Z/D).  Probe points are half-lattice points (D = 2); D grows (by 5)
+   only under the inverse of a Pythagorean (3-4-5) rotation and is reduced when possible.
    Every defining inequality f(p) < 0 of degree k is evaluated as the integer
    F(P) = D^k f(P/D) < 0.  TLC integers are 32-bit and TLC *raises an error* on
    overflow (never wraps), so an out-of-range scene breaks the check, never passes it.
@@ -21,14 +21,16 @@
      polycone / polyprism4  z=<<..>> ro=<<..>> ri=<<..>> or <<>>  ea
      any c=<<objs>> | all c=<<objs>> | not c=obj | sub a b | rdv c=<< <<"in"|"out",obj>> .. >>
      tf t=[m, den, t] c=obj         (parent = (m/den) local + t)
+     ref i                          (the i-th shared placed object of the enclosing unit)
 
    Near-surface.  A probe is compared only if it is farther than the construction
    tolerance from every surface of every object of every unit it is located in.  This
-   is decided exactly: each defining polynomial comes with an integer bound
-   B >= D^k sup |grad f|_1 over the unit ball around the point, hence
-   dist(p, {f = 0}) >= |F| / B, and  dist <= 1/TolInv  implies  |F| <= B \div TolInv.
-   TolInv is a scene parameter: 1/TolInv >= margin x (largest effective soft-equality
-   tolerance rel*max(1,|coordinate|) in the scene). *)
+   is decided exactly.  Let R bound every coordinate magnitude met while locating a probe
+   (scene parameter `scale`; a point outside the bound counts as near).  Each defining
+   polynomial f of degree k comes with an integer B(o, D) >= D^k sup |grad f|_1 over
+   |x|_inf <= R + 1, hence dist(p, {f = 0}) >= |F| / B, and dist <= 1/tolinv implies
+   |F| <= B \div tolinv.  `tolinv` is a scene parameter: 1/tolinv >= margin x (largest
+   effective soft-equality tolerance rel*max(1,|coordinate|) of the scene). *)
 EXTENDS Integers, Sequences, FiniteSets
 
 Abs(x) == IF x < 0 THEN -x ELSE x
@@ -40,7 +42,6 @@ Has(o, f) == f \in DOMAIN o
 ---------------------------------------------------------------------------
 (* Transforms: parent = (m/den) local + t with m an integer matrix, m m^T = den^2 I
    (signed permutations: den = 1; Pythagorean rotations: den = 5). *)
-Mat3Id == <<<<1, 0, 0>>, <<0, 1, 0>>, <<0, 0, 1>>>>
 MulT(m, q) == \* m^T q
   <<m[1][1] * q[1] + m[2][1] * q[2] + m[3][1] * q[3],
     m[1][2] * q[1] + m[2][2] * q[2] + m[3][2] * q[3],
@@ -65,27 +66,23 @@ Apply(tf, P) ==
               q[3] + tf.den * D * tf.t[3], D * tf.den>>, tf.den)
 
 ---------------------------------------------------------------------------
-(* Defining polynomials of the convex primitives: Polys = sequence of integers F, the
-   point is inside iff every F < 0; Bnds = the aligned gradient bounds B. *)
-AllNeg(fs) == \A i \in DOMAIN fs : fs[i] < 0
-NearAny(fs, bs, tolinv) == \E i \in DOMAIN fs : Abs(fs[i]) <= bs[i] \div tolinv
-SlabP(c, hD) == <<c - hD, -c - hD>>                 \* |c| < hD
-SlabB(D) == <<D, D>>
-
+(* Building blocks *)
 U4(k) == LET j == k % 4 IN
          IF j = 0 THEN <<1, 0>> ELSE IF j = 1 THEN <<0, 1>> ELSE IF j = 2 THEN <<-1, 0>> ELSE <<0, -1>>
-\* azimuth strictly between s and s+w quarter turns (w in 1..2): the two bounding half-planes
-WedgeP(s, w, P) == LET xy == <<P[1], P[2]>> IN
-  IF w = 1 THEN <<-Cross2(U4(s), xy), Cross2(U4(s + 1), xy)>> ELSE <<-Cross2(U4(s), xy)>>
-WedgeB(s, w, P) == IF w = 1 THEN <<P[4], P[4]>> ELSE <<P[4]>>
+\* azimuth strictly between s and s+w quarter turns (w in 1..2): bounded by the half-plane
+\* counterclockwise of direction U4(s) and (w = 1) the one clockwise of U4(s+1)
+WedgeA(s, P) == Cross2(U4(s), <<P[1], P[2]>>)       \* > 0: counterclockwise of U4(s)
+WedgeIn(s, w, P) == WedgeA(s, P) > 0 /\ (w = 1 => WedgeA(s + 1, P) < 0)
+WedgeNear(s, w, P, k) == Abs(WedgeA(s, P)) <= k \/ (w = 1 /\ Abs(WedgeA(s + 1, P)) <= k)
 
-\* cone frustum between planes za < zb with radii ra, rb (not both 0): side polynomial
+\* cone frustum between planes za < zb with radii ra, rb (not both 0):
+\* the radius interpolates linearly; (zb - za) rho < ra (zb - z) + rb (z - za), squared
 ConeL(za, zb, ra, rb, P) == ra * (zb * P[4] - P[3]) + rb * (P[3] - za * P[4])
 ConeF(za, zb, ra, rb, P) == Sq(zb - za) * (Sq(P[1]) + Sq(P[2])) - Sq(ConeL(za, zb, ra, rb, P))
-ConeB(za, zb, ra, rb, P) ==
-  LET D == P[4] dl == Abs(rb - ra) IN
-  2 * Sq(zb - za) * D * (Abs(P[1]) + Abs(P[2]) + 2 * D)
-    + 2 * (Abs(ConeL(za, zb, ra, rb, P)) + dl * D) * dl * D
+ConeB(za, zb, ra, rb, D, R) ==
+  LET dl == Abs(rb - ra)
+      lmax == ra * (Abs(zb) + R + 1) + rb * (Abs(za) + R + 1)
+  IN 2 * Sq(zb - za) * Sq(D) * 2 * (R + 1) + 2 * lmax * dl * Sq(D)
 
 \* generalised prism: vertices lo (at -hh) and hi (at +hh), same winding
 Area2(poly) == LET n == Len(poly)
@@ -101,36 +98,34 @@ GPv(o, i, P) == \* 2 hh D x (vertex i of the cross-section at the point's z)
 GPcross(o, i, P) == \* Winding x this > 0 iff the point is on the inner side of side i -> i+1
   LET j == (i % Len(o.lo)) + 1
       vi == GPv(o, i, P)  vj == GPv(o, j, P)
-      e == <<vj[1] - vi[1], vj[2] - vi[2]>>
-      w == <<2 * o.hh * P[1] - vi[1], 2 * o.hh * P[2] - vi[2]>>
-  IN Cross2(e, w)
-GPbound(o, i, P) ==
-  LET D == P[4]
-      j == (i % Len(o.lo)) + 1
-      vi == GPv(o, i, P)  vj == GPv(o, j, P)
-      e == <<vj[1] - vi[1], vj[2] - vi[2]>>
-      w == <<2 * o.hh * P[1] - vi[1], 2 * o.hh * P[2] - vi[2]>>
-      dv == <<o.hi[i][1] - o.lo[i][1], o.hi[i][2] - o.lo[i][2]>>
-      de == <<(o.hi[j][1] - o.lo[j][1]) - dv[1], (o.hi[j][2] - o.lo[j][2]) - dv[2]>>
-      ne == N1(e) + D * N1(de)
-  IN 2 * o.hh * D * ne + N1(de) * D * (N1(w) + D * (4 * o.hh + N1(dv))) + ne * D * N1(dv)
+  IN Cross2(<<vj[1] - vi[1], vj[2] - vi[2]>>, <<2 * o.hh * P[1] - vi[1], 2 * o.hh * P[2] - vi[2]>>)
+\* f = cross(e(z), w(x,y,z)), e = v_j - v_i, w = 2hh p - v_i, v_k(z) = lo_k (hh - z) + hi_k (hh + z):
+\* |grad f|_1 <= 2hh |e|_1 + |e'|_1 |w|_1 + |e|_1 |v_i'|_1
+GPB(o, D, R) ==
+  LET n == Len(o.lo)
+      m[k \in 0..n] == IF k = 0 THEN 0 ELSE
+                       LET c == N1(o.lo[k]) + N1(o.hi[k]) IN IF c > m[k - 1] THEN c ELSE m[k - 1]
+      M == m[n]                               \* |v_k'|_1 <= M, |v_k|_1 <= (hh + R + 1) M
+      V == (o.hh + R + 1) * M
+  IN Sq(D) * (2 * o.hh * 2 * V + 2 * M * (4 * o.hh * (R + 1) + V) + 2 * V * M)
 TrdPoly(o) == [k |-> "genprism", hh |-> o.hh,
                lo |-> <<<<o.lo[1], -o.lo[2]>>, <<o.lo[1], o.lo[2]>>, <<-o.lo[1], o.lo[2]>>, <<-o.lo[1], -o.lo[2]>>>>,
                hi |-> <<<<o.hi[1], -o.hi[2]>>, <<o.hi[1], o.hi[2]>>, <<-o.hi[1], o.hi[2]>>, <<-o.hi[1], -o.hi[2]>>>>]
 
-(* Membership of the convex primitives, stated directly (the second, polynomial form
-   `Polys` below is what the near-surface predicate uses; SolidsMC checks that the two
-   formulations agree: PrimIn(o, P) = AllNeg(Polys(o, P))). *)
+NearSlab(c, hD, k) == Abs(c - hD) <= k \/ Abs(c + hD) <= k
+InRange(P, R) == Abs(P[1]) <= R * P[4] /\ Abs(P[2]) <= R * P[4] /\ Abs(P[3]) <= R * P[4]
+
+---------------------------------------------------------------------------
+(* Membership of the convex primitives, from their definitions *)
+EllF(o, P) == Sq(o.r[2] * o.r[3]) * Sq(P[1]) + Sq(o.r[1] * o.r[3]) * Sq(P[2])
+                + Sq(o.r[1] * o.r[2]) * Sq(P[3]) - Sq(o.r[1] * o.r[2] * o.r[3] * P[4])
 PrimIn(o, P) ==
   LET X == P[1]  Y == P[2]  Z == P[3]  D == P[4] IN
   CASE o.k = "box" -> Abs(X) < o.h[1] * D /\ Abs(Y) < o.h[2] * D /\ Abs(Z) < o.h[3] * D
     [] o.k = "sphere" -> Sq(X) + Sq(Y) + Sq(Z) < Sq(o.r * D)
     [] o.k = "cyl" -> Abs(Z) < o.hh * D /\ Sq(X) + Sq(Y) < Sq(o.r * D)
-    [] o.k = "cone" -> \* radius at height z interpolates linearly between rlo (-hh) and rhi (+hh)
-         /\ Abs(Z) < o.hh * D
-         /\ Sq(2 * o.hh) * (Sq(X) + Sq(Y)) < Sq(o.rlo * (o.hh * D - Z) + o.rhi * (o.hh * D + Z))
-    [] o.k = "ell" -> Sq(o.r[2] * o.r[3]) * Sq(X) + Sq(o.r[1] * o.r[3]) * Sq(Y)
-                        + Sq(o.r[1] * o.r[2]) * Sq(Z) < Sq(o.r[1] * o.r[2] * o.r[3] * D)
+    [] o.k = "cone" -> Abs(Z) < o.hh * D /\ ConeF(-o.hh, o.hh, o.rlo, o.rhi, P) < 0
+    [] o.k = "ell" -> EllF(o, P) < 0
     [] o.k = "prism4" -> Abs(X) < o.a * D /\ Abs(Y) < o.a * D /\ Abs(Z) < o.hh * D
     [] o.k = "trd" -> \* half-widths interpolate linearly between lo (-hh) and hi (+hh)
          /\ Abs(Z) < o.hh * D
@@ -139,49 +134,40 @@ PrimIn(o, P) ==
     [] o.k = "genprism" -> \* inside the polygon whose vertices interpolate linearly in z
          /\ Abs(Z) < o.hh * D
          /\ LET w == Winding(o) IN \A i \in 1..Len(o.lo) : w * GPcross(o, i, P) > 0
-    [] o.k = "wedge" -> AllNeg(WedgeP(o.s, o.w, P))
+    [] o.k = "wedge" -> WedgeIn(o.s, o.w, P)
 
-Polys(o, P) ==
-  LET X == P[1]  Y == P[2]  Z == P[3]  D == P[4] IN
-  CASE o.k = "box" -> SlabP(X, o.h[1] * D) \o SlabP(Y, o.h[2] * D) \o SlabP(Z, o.h[3] * D)
-    [] o.k = "sphere" -> <<Sq(X) + Sq(Y) + Sq(Z) - Sq(o.r) * Sq(D)>>
-    [] o.k = "cyl" -> <<Sq(X) + Sq(Y) - Sq(o.r) * Sq(D)>> \o SlabP(Z, o.hh * D)
-    [] o.k = "cone" -> <<ConeF(-o.hh, o.hh, o.rlo, o.rhi, P)>> \o SlabP(Z, o.hh * D)
-    [] o.k = "ell" -> <<Sq(o.r[2] * o.r[3]) * Sq(X) + Sq(o.r[1] * o.r[3]) * Sq(Y)
-                         + Sq(o.r[1] * o.r[2]) * Sq(Z) - Sq(o.r[1] * o.r[2] * o.r[3]) * Sq(D)>>
-    [] o.k = "prism4" -> SlabP(X, o.a * D) \o SlabP(Y, o.a * D) \o SlabP(Z, o.hh * D)
-    [] o.k = "trd" -> LET g == TrdPoly(o) w == Winding(g) IN
-                      [i \in 1..4 |-> -w * GPcross(g, i, P)] \o SlabP(Z, o.hh * D)
-    [] o.k = "genprism" -> LET w == Winding(o) IN
-                           [i \in 1..Len(o.lo) |-> -w * GPcross(o, i, P)] \o SlabP(Z, o.hh * D)
-    [] o.k = "wedge" -> WedgeP(o.s, o.w, P)
-
-Bnds(o, P) ==
-  LET X == P[1]  Y == P[2]  Z == P[3]  D == P[4] IN
-  CASE o.k = "box" -> SlabB(D) \o SlabB(D) \o SlabB(D)
-    [] o.k = "sphere" -> <<2 * D * (Abs(X) + Abs(Y) + Abs(Z)) + 6 * Sq(D)>>
-    [] o.k = "cyl" -> <<2 * D * (Abs(X) + Abs(Y)) + 4 * Sq(D)>> \o SlabB(D)
-    [] o.k = "cone" -> <<ConeB(-o.hh, o.hh, o.rlo, o.rhi, P)>> \o SlabB(D)
-    [] o.k = "ell" -> <<2 * D * (Sq(o.r[2] * o.r[3]) * (Abs(X) + D) + Sq(o.r[1] * o.r[3]) * (Abs(Y) + D)
-                                 + Sq(o.r[1] * o.r[2]) * (Abs(Z) + D))>>
-    [] o.k = "prism4" -> SlabB(D) \o SlabB(D) \o SlabB(D)
-    [] o.k = "trd" -> LET g == TrdPoly(o) IN [i \in 1..4 |-> GPbound(g, i, P)] \o SlabB(D)
-    [] o.k = "genprism" -> [i \in 1..Len(o.lo) |-> GPbound(o, i, P)] \o SlabB(D)
-    [] o.k = "wedge" -> WedgeB(o.s, o.w, P)
-
-PrimNear(o, P, tolinv) == NearAny(Polys(o, P), Bnds(o, P), tolinv)
+\* on or within 1/tolinv of one of the primitive's defining surfaces (extended to all of space)
+PrimNear(o, P, par) ==
+  LET X == P[1]  Y == P[2]  Z == P[3]  D == P[4]  R == par.scale
+      k1 == D \div par.tolinv                       \* planes with unit normal
+  IN
+  CASE o.k = "box" -> NearSlab(X, o.h[1] * D, k1) \/ NearSlab(Y, o.h[2] * D, k1) \/ NearSlab(Z, o.h[3] * D, k1)
+    [] o.k = "sphere" -> Abs(Sq(X) + Sq(Y) + Sq(Z) - Sq(o.r * D)) <= (6 * Sq(D) * (R + 1)) \div par.tolinv
+    [] o.k = "cyl" -> \/ NearSlab(Z, o.hh * D, k1)
+                      \/ Abs(Sq(X) + Sq(Y) - Sq(o.r * D)) <= (4 * Sq(D) * (R + 1)) \div par.tolinv
+    [] o.k = "cone" -> \/ NearSlab(Z, o.hh * D, k1)
+                       \/ Abs(ConeF(-o.hh, o.hh, o.rlo, o.rhi, P))
+                            <= ConeB(-o.hh, o.hh, o.rlo, o.rhi, D, R) \div par.tolinv
+    [] o.k = "ell" -> Abs(EllF(o, P)) <= (2 * Sq(D) * (R + 1) * (Sq(o.r[2] * o.r[3]) + Sq(o.r[1] * o.r[3])
+                                                              + Sq(o.r[1] * o.r[2]))) \div par.tolinv
+    [] o.k = "prism4" -> NearSlab(X, o.a * D, k1) \/ NearSlab(Y, o.a * D, k1) \/ NearSlab(Z, o.hh * D, k1)
+    [] o.k = "trd" -> LET g == TrdPoly(o)  kk == GPB(g, D, R) \div par.tolinv IN
+                      NearSlab(Z, o.hh * D, k1) \/ \E i \in 1..4 : Abs(GPcross(g, i, P)) <= kk
+    [] o.k = "genprism" -> LET kk == GPB(o, D, R) \div par.tolinv IN
+                      NearSlab(Z, o.hh * D, k1) \/ \E i \in 1..Len(o.lo) : Abs(GPcross(o, i, P)) <= kk
+    [] o.k = "wedge" -> WedgeNear(o.s, o.w, P, k1)
 
 ---------------------------------------------------------------------------
 (* Enclosed angle <<s, w>>: azimuth in (s, s+w) quarter turns; w = 3 is the complement of
    the closed quarter wedge starting at s+3; <<>> is the full turn. *)
 EaIn(ea, P) ==
   IF ea = <<>> THEN TRUE
-  ELSE IF ea[2] <= 2 THEN AllNeg(WedgeP(ea[1], ea[2], P))
-  ELSE ~AllNeg(WedgeP(ea[1] + 3, 1, P))
-EaNear(ea, P, tolinv) ==
+  ELSE IF ea[2] <= 2 THEN WedgeIn(ea[1], ea[2], P)
+  ELSE ~WedgeIn(ea[1] + 3, 1, P)
+EaNear(ea, P, par) ==
   IF ea = <<>> THEN FALSE
-  ELSE IF ea[2] <= 2 THEN NearAny(WedgeP(ea[1], ea[2], P), WedgeB(ea[1], ea[2], P), tolinv)
-  ELSE NearAny(WedgeP(ea[1] + 3, 1, P), WedgeB(ea[1] + 3, 1, P), tolinv)
+  ELSE IF ea[2] <= 2 THEN WedgeNear(ea[1], ea[2], P, P[4] \div par.tolinv)
+  ELSE WedgeNear(ea[1] + 3, 1, P, P[4] \div par.tolinv)
 
 \* stacked segments: those with z[i] < z[i+1] (zero-height entries only step the radius)
 Segs(o) == {i \in 1..(Len(o.z) - 1) : o.z[i] < o.z[i + 1]}
@@ -193,14 +179,15 @@ PolyConeIn(o, P) ==
         /\ ConeF(o.z[i], o.z[i + 1], o.ro[i], o.ro[i + 1], P) < 0
         /\ HasInner(o) => ~(ConeF(o.z[i], o.z[i + 1], o.ri[i], o.ri[i + 1], P) < 0)
   /\ EaIn(o.ea, P)
-PolyConeNear(o, P, tolinv) ==
+PolyConeNear(o, P, par) ==
+  LET D == P[4]  R == par.scale  k1 == D \div par.tolinv IN
   \/ \E i \in Segs(o) :
-        \/ NearAny(<<P[3] - o.z[i] * P[4], P[3] - o.z[i + 1] * P[4]>>, <<P[4], P[4]>>, tolinv)
-        \/ NearAny(<<ConeF(o.z[i], o.z[i + 1], o.ro[i], o.ro[i + 1], P)>>,
-                   <<ConeB(o.z[i], o.z[i + 1], o.ro[i], o.ro[i + 1], P)>>, tolinv)
-        \/ HasInner(o) /\ NearAny(<<ConeF(o.z[i], o.z[i + 1], o.ri[i], o.ri[i + 1], P)>>,
-                                  <<ConeB(o.z[i], o.z[i + 1], o.ri[i], o.ri[i + 1], P)>>, tolinv)
-  \/ EaNear(o.ea, P, tolinv)
+        \/ Abs(P[3] - o.z[i] * D) <= k1 \/ Abs(P[3] - o.z[i + 1] * D) <= k1
+        \/ Abs(ConeF(o.z[i], o.z[i + 1], o.ro[i], o.ro[i + 1], P))
+             <= ConeB(o.z[i], o.z[i + 1], o.ro[i], o.ro[i + 1], D, R) \div par.tolinv
+        \/ HasInner(o) /\ Abs(ConeF(o.z[i], o.z[i + 1], o.ri[i], o.ri[i + 1], P))
+                            <= ConeB(o.z[i], o.z[i + 1], o.ri[i], o.ri[i + 1], D, R) \div par.tolinv
+  \/ EaNear(o.ea, P, par)
 \* stacked regular 4-prisms: each nondegenerate segment has equal apothems at both ends
 PolyPrismIn(o, P) ==
   /\ \E i \in Segs(o) :
@@ -208,19 +195,19 @@ PolyPrismIn(o, P) ==
         /\ Abs(P[1]) < o.ro[i] * P[4] /\ Abs(P[2]) < o.ro[i] * P[4]
         /\ HasInner(o) => ~(Abs(P[1]) < o.ri[i] * P[4] /\ Abs(P[2]) < o.ri[i] * P[4])
   /\ EaIn(o.ea, P)
-PolyPrismNear(o, P, tolinv) ==
+PolyPrismNear(o, P, par) ==
+  LET D == P[4]  k1 == D \div par.tolinv IN
   \/ \E i \in Segs(o) :
-        LET D == P[4] IN
-        \/ NearAny(<<P[3] - o.z[i] * D, P[3] - o.z[i + 1] * D>>, <<D, D>>, tolinv)
-        \/ NearAny(SlabP(P[1], o.ro[i] * D) \o SlabP(P[2], o.ro[i] * D), <<D, D, D, D>>, tolinv)
-        \/ HasInner(o) /\ NearAny(SlabP(P[1], o.ri[i] * D) \o SlabP(P[2], o.ri[i] * D), <<D, D, D, D>>, tolinv)
-  \/ EaNear(o.ea, P, tolinv)
+        \/ Abs(P[3] - o.z[i] * D) <= k1 \/ Abs(P[3] - o.z[i + 1] * D) <= k1
+        \/ NearSlab(P[1], o.ro[i] * D, k1) \/ NearSlab(P[2], o.ro[i] * D, k1)
+        \/ HasInner(o) /\ (NearSlab(P[1], o.ri[i] * D, k1) \/ NearSlab(P[2], o.ri[i] * D, k1))
+  \/ EaNear(o.ea, P, par)
 
 ---------------------------------------------------------------------------
 (* Membership of an object tree and the exact near-surface predicate.  `env` gives the
    value of the unit's shared placed objects at the point ({"k":"ref","i":j} = the j-th
    entry of the unit's `objs`; users share one object between several region definitions
-   in exactly this way): envIn[j] / envNear[j]. *)
+   in exactly this way). *)
 RECURSIVE InSolidE(_, _, _)
 InSolidE(o, P, env) ==
   CASE o.k = "tf" -> InSolidE(o.c, InvApply(o.t, P), env)
@@ -238,26 +225,28 @@ InSolidE(o, P, env) ==
     [] OTHER -> PrimIn(o, P)
 InSolid(o, P) == InSolidE(o, P, <<>>)
 
+\* par = [tolinv |-> n, scale |-> R]
 RECURSIVE NearE(_, _, _, _)
-NearE(o, P, tolinv, env) ==
-  CASE o.k = "tf" -> NearE(o.c, InvApply(o.t, P), tolinv, env)
+NearE(o, P, par, env) ==
+  CASE o.k = "tf" -> NearE(o.c, InvApply(o.t, P), par, env)
     [] o.k = "ref" -> env[o.i]
-    [] o.k = "rdv" -> \E i \in DOMAIN o.c : NearE(o.c[i][2], P, tolinv, env)
-    [] o.k \in {"any", "all"} -> \E i \in DOMAIN o.c : NearE(o.c[i], P, tolinv, env)
-    [] o.k = "not" -> NearE(o.c, P, tolinv, env)
-    [] o.k = "sub" -> NearE(o.a, P, tolinv, env) \/ NearE(o.b, P, tolinv, env)
-    [] o.k = "solid" -> \/ PrimNear(o.out, P, tolinv)
-                        \/ Has(o, "inn") /\ PrimNear(o.inn, P, tolinv)
-                        \/ EaNear(o.ea, P, tolinv)
-    [] o.k = "polycone" -> PolyConeNear(o, P, tolinv)
-    [] o.k = "polyprism4" -> PolyPrismNear(o, P, tolinv)
-    [] OTHER -> PrimNear(o, P, tolinv)
-OnOrNearSurface(o, P, tolinv) == NearE(o, P, tolinv, <<>>)
+    [] o.k = "rdv" -> \E i \in DOMAIN o.c : NearE(o.c[i][2], P, par, env)
+    [] o.k \in {"any", "all"} -> \E i \in DOMAIN o.c : NearE(o.c[i], P, par, env)
+    [] o.k = "not" -> NearE(o.c, P, par, env)
+    [] o.k = "sub" -> NearE(o.a, P, par, env) \/ NearE(o.b, P, par, env)
+    [] OTHER -> \/ ~InRange(P, par.scale)
+                \/ CASE o.k = "solid" -> \/ PrimNear(o.out, P, par)
+                                         \/ Has(o, "inn") /\ PrimNear(o.inn, P, par)
+                                         \/ EaNear(o.ea, P, par)
+                     [] o.k = "polycone" -> PolyConeNear(o, P, par)
+                     [] o.k = "polyprism4" -> PolyPrismNear(o, P, par)
+                     [] OTHER -> PrimNear(o, P, par)
+OnOrNearSurface(o, P, par) == NearE(o, P, par, <<>>)
 
 ---------------------------------------------------------------------------
-(* Units.  A scene is [units |-> <<u0, u1, ...>>, tolinv |-> n, ...]; u0 is the global
-   unit.  unit = [name, boundary (object), bg (label or ""), objs <<shared placed objects>>,
-   daughters <<[unit (0-based index), tf]>>, materials <<[label, obj]>>].
+(* Units.  A scene is [units |-> <<u0, u1, ...>>, tolinv |-> n, scale |-> R, ...]; u0 is
+   the global unit.  unit = [name, boundary (object), bg (label or ""), objs <<shared placed
+   objects>>, daughters <<[unit (0-based index), tf]>>, materials <<[label, obj]>>].
 
    Meaning (UnitProto.hh): a unit's boundary bounds it; a *daughter* is another unit,
    transformed and placed -- it claims the image of ITS boundary; a *material* claims its
@@ -272,8 +261,9 @@ OnOrNearSurface(o, P, tolinv) == NearE(o, P, tolinv, <<>>)
    extension, "label@unit" (materials and background carry the labels given in the
    scene; the exterior is "[EXTERIOR]@unit"). *)
 DaughterInterior(sc, d) == [k |-> "tf", t |-> d.tf, c |-> sc.units[d.unit + 1].boundary]
+Par(sc) == [tolinv |-> sc.tolinv, scale |-> sc.scale]
 EnvIn(u, P) == [j \in DOMAIN u.objs |-> InSolid(u.objs[j], P)]
-EnvNear(u, P, tolinv) == [j \in DOMAIN u.objs |-> OnOrNearSurface(u.objs[j], P, tolinv)]
+EnvNear(u, P, par) == [j \in DOMAIN u.objs |-> OnOrNearSurface(u.objs[j], P, par)]
 
 RECURSIVE ExpectedVolume(_, _, _, _)
 ExpectedVolume(sc, ui, P, global) ==
@@ -295,11 +285,11 @@ ExpectedVolume(sc, ui, P, global) ==
 RECURSIVE NearInScene(_, _, _)
 NearInScene(sc, ui, P) ==
   LET u == sc.units[ui + 1]
-      env == EnvNear(u, P, sc.tolinv)
+      env == EnvNear(u, P, Par(sc))
       ds == {i \in DOMAIN u.daughters : InSolid(DaughterInterior(sc, u.daughters[i]), P)}
   IN \/ \E j \in DOMAIN env : env[j]
-     \/ NearE(u.boundary, P, sc.tolinv, env)
-     \/ \E i \in DOMAIN u.daughters : OnOrNearSurface(DaughterInterior(sc, u.daughters[i]), P, sc.tolinv)
-     \/ \E i \in DOMAIN u.materials : NearE(u.materials[i].obj, P, sc.tolinv, env)
+     \/ NearE(u.boundary, P, Par(sc), env)
+     \/ \E i \in DOMAIN u.daughters : OnOrNearSurface(DaughterInterior(sc, u.daughters[i]), P, Par(sc))
+     \/ \E i \in DOMAIN u.materials : NearE(u.materials[i].obj, P, Par(sc), env)
      \/ \E i \in ds : NearInScene(sc, u.daughters[i].unit, InvApply(u.daughters[i].tf, P))
 =============================================================================
